@@ -788,7 +788,76 @@ def cases_build_events(rng, n):
     return out
 
 
+def cases_stamp(rng, n):
+    """the `from_parsed_data` of star-power phrases, track events, global events and anchors: the hinted query is recorded, the
+    constructor's entry is written from the object that came back"""
+    from chartparse.globalevents import GlobalEventsTrack, LyricEvent, SectionEvent, TextEvent
+    from chartparse.instrument import InstrumentTrack, StarPowerEvent, TrackEvent
+    from chartparse.sync import AnchorEvent, BPMEvents, SyncTrack
+
+    from . import gen
+    out = []
+    prof = gen.Profile(max_tracks=1, max_groups=3, max_events=3, max_tempo=3, garbage=0.0, unknown_sections=0.0)
+    for _ in range(max(6, n // 8)):
+        src = gen.rand_src(rng, prof)
+        R = gen.render(src, rng, prof)
+        secs = dict(R.sections)
+        try:
+            st = SyncTrack.from_chart_lines(src.res, list(secs.get("SyncTrack", [])))
+            _, _, an_d = SyncTrack._parse_data_from_chart_lines(list(secs.get("SyncTrack", [])))
+            tx_d, se_d, ly_d = GlobalEventsTrack._parse_data_from_chart_lines(list(secs.get("Events", [])))
+        except Exception:  # noqa: BLE001
+            continue
+        be = st.bpm_events
+        jobs = [("globalEventFromParsedData", TextEvent, tx_d, "value"), ("globalEventFromParsedData", SectionEvent, se_d, "value"),
+                ("globalEventFromParsedData", LyricEvent, ly_d, "value")]
+        for tag, body in R.sections:
+            if tag not in ("Song", "SyncTrack", "Events"):
+                _, sp_d, te_d = InstrumentTrack._parse_data_from_chart_lines(list(body))
+                jobs += [("specialFromParsedData", StarPowerEvent, sp_d, "sustain"), ("trackEventFromParsedData", TrackEvent, te_d, "value")]
+        for name, et, datas, field in jobs:
+            datas = list(datas)
+            if rng.random() < 0.2:
+                rng.shuffle(datas)   # out of order: the hinted query may refuse
+            prev = None
+            for d in datas:
+                rec = Recorder()
+                try:
+                    with rec.patch(BPMEvents, "timestamp_at_tick", ".timestamp_at_tick(start_iteration_index=)",
+                                   lambda a, kw: [a[0], a[1], kw.get("start_iteration_index", a[2] if len(a) > 2 else 0)]):
+                        try:
+                            ev = et.from_parsed_data(d, prev, be)
+                            real = "R " + ser(ev)
+                        except Exception as ex:  # noqa: BLE001
+                            ev, real = None, "E " + err_tok(ex)
+                    if not rec.ok:
+                        break
+                    table = list(rec.log)
+                    ctor = f"()(tick=,timestamp=,{field}=,_proximal_bpm_event_index=)"
+                    if ev is not None:
+                        table.append(f"{ctor} 5 {ser(et)} {ser(ev.tick)} {ser(ev.timestamp)} {ser(getattr(ev, field))} {ser(ev._proximal_bpm_event_index)} R {ser(ev)}")
+                    out.append((request(name, [et, d, prev, be], table), real, name))
+                except Unserialisable:
+                    break
+                if ev is None:
+                    break
+                prev = ev
+        for d in an_d:
+            try:
+                ev = AnchorEvent.from_parsed_data(d)
+                table = [f"timedelta(microseconds=) 1 {ser(d.microseconds)} R {ser(ev.timestamp)}",
+                         f"()(tick=,timestamp=) 3 {ser(AnchorEvent)} {ser(ev.tick)} {ser(ev.timestamp)} R {ser(ev)}"]
+                out.append((request("anchorFromParsedData", [AnchorEvent, d], table), "R " + ser(ev), "anchorFromParsedData"))
+            except Unserialisable:
+                continue
+    return out
+
+
 GENERATORS = {
+    "specialFromParsedData": cases_stamp,
+    "trackEventFromParsedData": cases_stamp,
+    "globalEventFromParsedData": cases_stamp,
+    "anchorFromParsedData": cases_stamp,
     "buildEventsFromData": cases_build_events,
     "instrumentParseData": cases_parse_data,
     "syncParseData": cases_parse_data,
